@@ -294,6 +294,9 @@ def design_class(rec):
     return {'complete': complete, 'single': single, 'cv': cv, 'foldbal': foldbal, 'onepercell': onepercell}
 
 
+POISON = 'c/empty-self-slot/other-entries-nan'
+
+
 def defect_class(rec, dc):
     """the known-defect class of the compiled engine an input belongs to (None: fully checked)"""
     kind = rec['out']['kind'] if 'out' in rec else None
@@ -306,6 +309,9 @@ def defect_class(rec, dc):
         return 'c/kernel=correlation/nan'
     if not dc['complete'] and kind == 'quad':
         return 'c/kernel=mahalanobis/nan'
+    # a condition without any admissible pair of its own while other entries are defined
+    if 'out' in rec and any(not s['pairs'] for s in rec['out']['self']) and not all(rec['out']['nan']):
+        return POISON
     return None
 
 
